@@ -41,7 +41,7 @@ impl Handler for NoAwaitInLoopHandler {
     ) -> bool {
       use deno_ast::view::Node::*;
       match node {
-        FnDecl(_) | FnExpr(_) | ArrowExpr(_) => false,
+        FnDecl(_) | FnExpr(_) | ArrowExpr(_) | Function(_) => false,
         ForOfStmt(stmt) if stmt.is_await() => {
           // `await` is allowed to use within the body of `for await (const x of y) { ... }`
           false
